@@ -50,15 +50,15 @@ def regenerate(ctx):
     try:
         gen_scales.main(os.path.join(C.SRC, "scales.py"), os.path.join(C.COQ, "gen", "Scales.v"))
     except (Unsupported, SyntaxError, OSError) as e:
-        ctx.fail("translator gen/scales.py no longer recognises scales.py: %s" % e,
-                 dict(correspondence="gen/scales.py -> coq/gen/Scales.v", error=str(e)), kind="tie", no_input=True)
-        ok = False
+        if not C.tie_fallback(ctx, "translator gen/scales.py no longer recognises scales.py: %s" % e,
+                 dict(correspondence="gen/scales.py -> coq/gen/Scales.v", error=str(e)), kind="tie", no_input=True):
+            ok = False
     try:
         gen_banks.main(C.SRC, os.path.join(C.COQ, "gen", "Banks.v"))
     except (Unsupported, SyntaxError, OSError, KeyError) as e:
-        ctx.fail("translator gen/banks.py no longer recognises filters.py/util.py/config.py: %s" % str(e)[:600],
-                 dict(correspondence="gen/banks.py -> coq/gen/Banks.v", error=str(e)[:2000]), kind="tie", no_input=True)
-        ok = False
+        if not C.tie_fallback(ctx, "translator gen/banks.py no longer recognises filters.py/util.py/config.py: %s" % str(e)[:600],
+                 dict(correspondence="gen/banks.py -> coq/gen/Banks.v", error=str(e)[:2000]), kind="tie", no_input=True):
+            ok = False
     return ok
 
 
